@@ -1,0 +1,18 @@
+//! Verification hooks (feature `verif_hooks`, off by default).
+//!
+//! Re-exports otherwise private building blocks so that an external
+//! monitoring harness can drive them directly. Nothing in here is used by the
+//! crate itself.
+
+pub use crate::util::{
+    limited_queue::LimitedQueue,
+    sort::{csharp as sort_csharp, osu_legacy as sort_osu_legacy, TandemSorter},
+    special_functions::{erf, erf_inv},
+    strains_vec::StrainsVec,
+};
+
+/// Port of osu!'s legacy `FastRandom`.
+pub use crate::util::random::osu::Random as OsuRandom;
+
+/// Port of .NET's `System.Random`.
+pub use crate::util::random::csharp::Random as CsharpRandom;
